@@ -236,7 +236,7 @@ pub(crate) fn extract_meta_var(src: &str, meta_char: char) -> Option<MetaVariabl
     return Some(Multiple);
   }
   if let Some(trimmed) = src.strip_prefix(&ellipsis) {
-    if !trimmed.chars().all(is_valid_meta_var_char) {
+    if !trimmed.starts_with(is_valid_first_char) || !trimmed.chars().all(is_valid_meta_var_char) {
       return None;
     }
     if trimmed.starts_with('_') {
